@@ -538,6 +538,20 @@ func transparency(k *run.K) {
 		k.Count("origin_anchored", 1)
 	}
 	h, vars := insertions(k.Rng, g)
+	if k.Rng.Chance(2, 5) {
+		// nested mode: the empty member is inserted next to the non-empty one inside a sub-collection,
+		// or in a sub-collection of its own (depth 2 and 3)
+		gc := func(ms ...geom.Geometry) geom.Geometry { return geom.NewGeometryCollection(ms).AsGeometry() }
+		var empties []geom.Geometry
+		for _, t := range gen.AllTypes {
+			empties = append(empties, gen.EmptyOf(t, geom.DimXY))
+		}
+		e := empties[k.Rng.Intn(len(empties))]
+		inner := g
+		h = gc(gc(inner))
+		vars = []geom.Geometry{gc(gc(inner, e)), gc(gc(e, inner)), gc(gc(inner), e), gc(gc(inner, gc(e))), gc(gc(gc(e), inner))}
+		k.Count("nested_insertions", 1)
+	}
 	k.In("h", shared.WKT(h))
 	k.In("other", shared.WKT(other))
 	M := math.Max(exact.FromGeom(h).MaxAbs(), exact.FromGeom(other).MaxAbs())
